@@ -119,9 +119,11 @@ Print Assumptions C03_unexpired_supported_preferred.
 Theorem C03_default_selector : forall sup valid choices c,
   default_select sup valid choices = Some c ->
   In c choices /\
-  ((exists c', In c' choices /\ good sup valid c') -> good sup valid c).
+  ((exists c', In c' choices /\ good sup valid c') -> good sup valid c) /\
+  ((exists c', In c' choices /\ sup (c_hash c') = true) -> sup (c_hash c) = true).
 Proof.
-  intros sup valid choices c H. split; [eapply default_select_In; eauto | eapply default_select_good; eauto].
+  intros sup valid choices c H. split; [eapply default_select_In; eauto|].
+  split; [eapply default_select_good; eauto | eapply default_select_sup; eauto].
 Qed.
 Print Assumptions C03_default_selector.
 
@@ -181,7 +183,7 @@ Theorem C03_lookup_sound_x : forall lower is_space sup valid names_of cap s cfg 
   (almost_full cap (length (cache s)) = true /\
    exists nm x, hello_name lower is_space cfg ip (x_idna e) = Some nm /\
                 subject_qualifies is_space nm = true /\
-                load_from_storage (x_storage e) nm = Some x /\ sd_fresh x = true /\ c = sd_cert x /\
+                load_from_storage (x_storage e) (x_broken e) nm = Some x /\ sd_fresh x = true /\ c = sd_cert x /\
                 exists san, In san (c_names c) /\ covers san nm).
 Proof. intros. eapply lookup_x_sound; eauto. Qed.
 Print Assumptions C03_lookup_sound_x.
@@ -228,15 +230,13 @@ Proof.
   intros complete lower is_space sup valid names_of cap p s cfg sni ip e c s' HI Hc Hs H.
   destruct (custom_selector_scope sup valid names_of cap lower is_space p s cfg sni ip e c s' HI H)
     as [[Hx _]|(x & (nm & _ & _ & _ & Hl) & _ & ->)]; [eauto|].
-  unfold load_from_storage in Hl. destruct (alookup nm (x_storage e)) eqn:E.
-  - injection Hl as <-. eauto.
-  - eauto.
+  apply load_from_storage_key in Hl. destruct Hl as [k Hk]. eauto.
 Qed.
 Print Assumptions C03_answer_complete_x.
 
 (** what is loaded from storage covers the name it was loaded for *)
-Theorem C03_loaded_covers_name : forall st nm x,
-  storage_wf st -> load_from_storage st nm = Some x ->
+Theorem C03_loaded_covers_name : forall st br nm x,
+  storage_wf st -> load_from_storage st br nm = Some x ->
   exists san, In san (c_names (sd_cert x)) /\ covers san nm.
 Proof. exact loaded_covers. Qed.
 Print Assumptions C03_loaded_covers_name.
@@ -370,7 +370,7 @@ Definition ex_W := Cert [87]%N [n_sy] true [100]%N [] 0%Z [].            (* W: *
 Definition ex_full := run 1 init [OAdd ex_f None].                       (* capacity 1, holding f.y *)
 Definition ex_lookup_x (st : amap stored) sni :=
   lookup_x ascii_lower ascii_space (select_cert (fun _ => true) ex_valid) ex_full 1 (Config [] n_fb) sni n_ip
-           (EnvX (Some sni) st (Some [102]%N)).
+           (EnvX (Some sni) st [] (Some [102]%N)).
 
 Example C03_x_hypotheses_satisfiable :
   (* a full cache (1 of 1): "q.y" is not cached but in storage and fresh: loaded, evicting f.y *)
@@ -381,6 +381,9 @@ Example C03_x_hypotheses_satisfiable :
   (* in storage but due for renewal: it cannot be maintained with on-demand TLS off; the fallback
      certificate is served -- although it has just been evicted -- and the cache ends up empty *)
   ex_lookup_x [(n_qy, Stored ex_L false)] n_qy = (ROk ex_f, St [] []) /\
+  (* the exact name cannot be read (a storage error, not "not found"): the wildcard variant is not tried *)
+  lookup_x ascii_lower ascii_space (select_cert (fun _ => true) ex_valid) ex_full 1 (Config [] n_fb) n_qy n_ip
+           (EnvX (Some n_qy) [(n_sy, Stored ex_W true)] [n_qy] None) = (ROk ex_f, ex_full) /\
   (* nothing in storage: the fallback, the cache untouched *)
   ex_lookup_x [] n_qy = (ROk ex_f, ex_full) /\
   (* a name that does not qualify: refused although a fallback is configured *)
@@ -389,11 +392,11 @@ Example C03_x_hypotheses_satisfiable :
      certificates are offered: the largest hash wins; a refusing selector gives an error; one that
      accepts only supported unexpired choices picks e2 for "a.x" *)
   fst (lookup_x ascii_lower ascii_space (sel_policy (fun _ => true) ex_valid PMax) ex_state 0 (Config [] [])
-         [122; 122; 46; 113]%N n_ip (EnvX (Some [122; 122; 46; 113]%N) [] None)) = ROk ex_w /\
+         [122; 122; 46; 113]%N n_ip (EnvX (Some [122; 122; 46; 113]%N) [] [] None)) = ROk ex_w /\
   fst (lookup_x ascii_lower ascii_space (sel_policy (fun _ => true) ex_valid PRefuse) ex_state 0 (Config [] n_fb)
-         n_ax n_ip (EnvX (Some n_ax) [] None)) = RErr /\
+         n_ax n_ip (EnvX (Some n_ax) [] [] None)) = RErr /\
   fst (lookup_x ascii_lower ascii_space (sel_policy (fun _ => true) ex_valid PGoodMin) ex_state 0 (Config [] [])
-         n_ax n_ip (EnvX (Some n_ax) [] None)) = ROk ex_e2.
+         n_ax n_ip (EnvX (Some n_ax) [] [] None)) = ROk ex_e2.
 Proof.
   repeat split; try (vm_compute; reflexivity).
   intros k x H. cbn in H. destruct (str_eqb k n_qy) eqn:E; [|discriminate].
